@@ -176,6 +176,15 @@ def run_case(case):
             return viol('arity/not-TypeError', '%s(*%d %s args): %s %s (expected TypeError)' % (
                 cls, k, style, st, (type(val).__name__ + ': ' + str(val)) if st == 'raise' else 'accepted'), case, key)
         return held(case, key)
+    if kind == 'facevar-arity':
+        m, faces = small_mesh(cls)
+        k = case['arity']
+        args = [np.ones(3)] * k
+        st, val = outcome(lambda: pf.FaceVariable(m, *args))
+        if st != 'raise' or not isinstance(val, TypeError):
+            return viol('arity/facevar-not-TypeError', 'FaceVariable(mesh, *%d args) on %s: %s %s (documented: TypeError)' % (
+                k, cls, st, (type(val).__name__ + ': ' + str(val)[:80]) if st == 'raise' else 'accepted'), case, key)
+        return held(case, key)
     if kind == 'bcface':
         what = case['what']
         good = np.array([1.0])
@@ -302,6 +311,8 @@ def plan(tier, seed):
                 continue
             for style in ('arrays', 'NL', 'floats'):
                 cases.append({'kind': 'arity', 'cls': cls, 'arity': k, 'style': style})
+        for k in (0, 2, 4, 5):
+            cases.append({'kind': 'facevar-arity', 'cls': cls, 'arity': k})
         for what in ('none', 'float', 'int', 'str', 'cellvar', 'facevar', 'list', 'array0d', 'array3d', 'tuple1', 'tuple3',
                      'tuple_swapped', 'tuple_none', 'tuple_mm', 'tuple_vv', 'dict', 'tuple0'):
             cases.append({'kind': 'term', 'cls': cls, 'what': what})
